@@ -88,3 +88,39 @@ def D(x):
         f = Fraction(x)
         return RP2Decimal(Decimal(f.numerator) / Decimal(f.denominator))
     return RP2Decimal(str(x))
+
+
+def _name(v, pool, default):
+    return v if isinstance(v, str) and v in pool else default
+
+
+def build_tx(cfg, d, asset="B1"):
+    """Real transaction object whose stored fields are those of `d` (a decode_tx dictionary): optional exchange-supplied
+    columns are passed explicitly so that the constructor stores the model's values.  Raises what the constructor raises."""
+    from rp2.in_transaction import InTransaction
+    from rp2.out_transaction import OutTransaction
+    from rp2.intra_transaction import IntraTransaction
+    ts = iso(d["timestamp"]["inst"], d["timestamp"]["off"]) if isinstance(d["timestamp"], dict) else d["timestamp"]
+    row = d.get("row") if isinstance(d.get("row"), int) else 1
+    ex = lambda k: _name(d.get(k), ("Coinbase", "Kraken", "BlockFi"), "Coinbase")
+    ho = lambda k: _name(d.get(k), ("Bob", "Alice"), "Bob")
+    if d["cls"] == "InTransaction":
+        return InTransaction(cfg, ts, asset, ex("exchange"), ho("holder"), d["type"].lower(), D(d["spot_price"]), D(d["crypto_in"]),
+                             crypto_fee=None, fiat_in_no_fee=D(d["fiat_in_no_fee"]) if "fiat_in_no_fee" in d else None,
+                             fiat_in_with_fee=D(d["fiat_in_with_fee"]) if "fiat_in_with_fee" in d else None,
+                             fiat_fee=D(d["fiat_fee"]) if "fiat_fee" in d else None, row=row)
+    if d["cls"] == "OutTransaction":
+        return OutTransaction(cfg, ts, asset, ex("exchange"), ho("holder"), d["type"].lower(), D(d["spot_price"]), D(d["crypto_out_no_fee"]), D(d["crypto_fee"]),
+                              crypto_out_with_fee=D(d["crypto_out_with_fee"]) if "crypto_out_with_fee" in d else None,
+                              fiat_out_no_fee=D(d["fiat_out_no_fee"]) if "fiat_out_no_fee" in d else None,
+                              fiat_fee=D(d["fiat_fee"]) if "fiat_fee" in d else None, row=row)
+    if d["cls"] == "IntraTransaction":
+        return IntraTransaction(cfg, ts, asset, ex("from_exchange"), ho("from_holder"), ex("to_exchange"), ho("to_holder"), D(d["spot_price"]),
+                                D(d["crypto_sent"]), D(d["crypto_received"]), row=row)
+    raise ValueError(f"unknown transaction class {d['cls']}")
+
+
+def F(x):
+    """Exact rational value of a Decimal / numeric string."""
+    from fractions import Fraction
+    return Fraction(str(x)) if not isinstance(x, Fraction) else x
